@@ -73,10 +73,13 @@ def check_adjacent(d, spec, order, i, left, interp):
     return new, new_order
 
 
-def check_move(spec, i, j, left, interp, route="ctor"):
+def check_move(spec, i, j, left, interp, route="ctor", parts=None):
     from discopy.rewriting import InterchangerError
     if route == "subs":   # a diagram left behind by a substitution
         d = common.substituted(specs.build(spec))[0]
+    elif route == "tensor":   # ... or by a tensor
+        d = specs.build(parts[0]) @ specs.build(parts[1])
+        specs.matches_spec(d, spec, "tensor")
     else:
         d = specs.build(spec, route)
     n = len(d)
@@ -159,19 +162,36 @@ def single_cases(draw, tier):
     spec = draw(gen.diagrams(
         cls, max_boxes=8 if big else 6, max_width=6 if big else 5,
         min_boxes=1, names=names, zmax=1, max_arity=2))
+    route = draw(st.sampled_from(["ctor", "whisker", "subs", "tensor"]))
+    parts = None
+    if route == "tensor":
+        # the diagram is the library's tensor of two diagrams, the right one
+        # often an effect (inputs, no outputs) or a state
+        kind = draw(st.sampled_from(["effect", "effect", "state", "any"]))
+        if kind == "any":
+            right = draw(gen.diagrams(cls, max_boxes=2, max_width=3,
+                                      names=names, max_arity=2))
+        else:
+            t = draw(gen.types(cls, 1, 2, names, 1))
+            right = {"cls": cls, "dom": t if kind == "effect" else [],
+                     "layers": [[{"k": "box", "name": "e", "dag": False,
+                                  "dom": t if kind == "effect" else [],
+                                  "cod": [] if kind == "effect" else t}, 0]]}
+        parts = [spec, right]
+        spec = specs.spec_tensor(spec, right)
     n = len(spec["layers"])
     index = st.one_of(st.integers(0, n - 1), st.integers(0, n - 1),
                       st.integers(0, n - 1), st.integers(-n - 2, n + 2))
     i, j = draw(index), draw(index)
     interp = draw(gen.interpretations([spec], max_dim=2))
     return {"d": spec, "i": i, "j": j, "left": draw(st.booleans()),
-            "interp": interp,
-            "route": draw(st.sampled_from(["ctor", "whisker", "subs"]))}
+            "interp": interp, "route": route, "parts": parts}
 
 
 def check_single(case):
     return check_move(case["d"], case["i"], case["j"], case["left"],
-                      common.arrays_of(case["interp"]), case["route"])
+                      common.arrays_of(case["interp"]), case["route"],
+                      case.get("parts"))
 
 
 @st.composite
